@@ -29,7 +29,7 @@ theorem no_encode_failure {D : SlabID → DigestFn 4} (hdeep : DeepSteps D) {w :
     {s : St Slab (SlabID × Bytes)} (h : HistB D w cx s)
     (L : LeafOk w cx.ctr) (hside : ∀ id, SideAt w id) :
     NoEncodeFailure worldCodec s := by
-  obtain ⟨hrep, _, hund⟩ := histB_rep hdeep h
+  obtain ⟨hrep, _, hund, _⟩ := histB_rep hdeep h
   obtain ⟨H, Hh, _⟩ := C09W.world_heap_exact D w cx h.hist
   intro id v hv
   have hne : id ≠ SlabID.undef := by
@@ -56,8 +56,12 @@ theorem world_bytes_commit_reopen {D : SlabID → DigestFn 4} (hdeep : DeepSteps
         match decodeSlab p.1 p.2 0 with
         | .ok sl _ => some sl
         | _ => none) = w.toCodec id) ∧
-    (∀ id, id.isTemp = false → ((AList.find? reopened.base id).isSome ↔ (w.slabAt id).isSome)) := by
-  obtain ⟨hrep, hI, _⟩ := histB_rep hdeep h
+    (∀ id, id.isTemp = false → ((AList.find? reopened.base id).isSome ↔ (w.slabAt id).isSome)) ∧
+    -- … spelled out: the register of a heap slab is filed under its ID and `DecodeSlab(id, bytes)` is the slab
+    (∀ id sl, id.isTemp = false → w.toCodec id = some sl →
+      ∃ bytes k, AList.find? reopened.base id = some (id, bytes) ∧ decodeSlab id bytes 0 = .ok sl k) := by
+  obtain ⟨hrep, hI, _, _⟩ := histB_rep hdeep h
+  have hkeyed := (histB_rep hdeep (HistB.commit kind [] mo dlo h)).2.2.2
   have hne := no_encode_failure hdeep h L hside
   obtain ⟨k1, k2⟩ := rep_commit_reopen worldCodec worldCodec_roundTrip s _ hrep hI hne kind mo dlo
   refine ⟨k1, ?_⟩
@@ -73,8 +77,34 @@ theorem world_bytes_commit_reopen {D : SlabID → DigestFn 4} (hdeep : DeepSteps
     unfold St.view at this
     rw [k3, k4] at this
     exact this
+  have hbase : reopened.base = (St.step worldCodec s (.commit kind [] mo dlo)).1.base := by
+    show (St.run worldCodec s [.commit kind [] mo dlo, .recreate]).base = _
+    simp only [St.run, List.foldl_cons, List.foldl_nil]
+    rfl
   refine ⟨k3, k4, fun id ht => by rw [k6 id ht]; exact (congrFun (toCodec_of_conts (w := w) (w' := w.reopen) rfl) id).symm,
-    hreg, ?_⟩
+    hreg, ?_, ?_⟩
+  rotate_left
+  · intro id sl ht hsl
+    have h1 := hreg id ht
+    rw [hsl] at h1
+    cases hb : AList.find? reopened.base id with
+    | none => rw [hb] at h1; cases h1
+    | some p =>
+      rw [hb] at h1
+      simp only [Option.bind_some] at h1
+      have hp1 : p.1 = id := hkeyed id p (by rw [← hbase]; exact hb)
+      obtain ⟨pid, bytes⟩ := p
+      simp only at hp1
+      subst hp1
+      simp only at h1
+      cases hd : decodeSlab pid bytes 0 with
+      | ok sl' k =>
+        rw [hd] at h1
+        simp only [Option.some.injEq] at h1
+        subst h1
+        exact ⟨bytes, k, rfl, hd⟩
+      | error e k => rw [hd] at h1; cases h1
+      | panic => rw [hd] at h1; cases h1
   intro id ht
   have h1 := hreg id ht
   constructor
